@@ -62,8 +62,7 @@ static const int64_t code_nanoseconds_per_second = /*@EXPR nanoseconds_per_secon
 #define DC_SPLIT_OF(d) ((d) >= -D_MAX && (d) <= D_MAX && G.dc_d == (d) && G.dc_q >= -DC_Q_MAX && G.dc_q <= DC_Q_MAX \
                         && G.dc_r > -TPS && G.dc_r < TPS && ((d) >= 0 ? G.dc_r >= 0 : G.dc_r <= 0) && (d) - G.dc_r == G.dc_m && G.dc_rn == G.dc_r * NPT)
 /* the cast is a function: asked again for the same duration it gives the same split */
-#define DC_SAME_AS_BEFORE(d) ((__CPROVER_old(G.dc_calls) > 0 && __CPROVER_old(G.dc_d) == (d)) ==> \
-   (G.dc_q == __CPROVER_old(G.dc_q) && G.dc_m == __CPROVER_old(G.dc_m) && G.dc_r == __CPROVER_old(G.dc_r) && G.dc_rn == __CPROVER_old(G.dc_rn)))
+#define DC_SAME_AS_BEFORE(d, calls0, d0, q0, m0, r0, rn0) (((calls0) > 0 && (d0) == (d)) ==> (G.dc_q == (q0) && G.dc_m == (m0) && G.dc_r == (r0) && G.dc_rn == (rn0)))
 #define DC_CALLED_ONCE (G.dc_calls == __CPROVER_old(G.dc_calls) + 1)
 static int64_t VF_DURATION_CAST_SECONDS(duration_t d) {
   VF_P(d >= -D_MAX && d <= D_MAX, "duration operand within +-2^62 ticks (operand range)");
@@ -96,12 +95,12 @@ static int64_t VF_DURATION_CAST_NANOSECONDS(duration_t t) {
 
 /* normalize: canonical result, value preserved.  Value preservation is stated linearly: the result is the
  * argument with c whole seconds carried between the two parts, for one of the carries possible in the range. */
-#define NORM_CARRY(self, c) ((self)->seconds_ == __CPROVER_old((self)->seconds_) + (c) && (self)->nanoseconds_ == __CPROVER_old((self)->nanoseconds_) - (c) * NPS)
+#define NORM_CARRY(t, s0, n0, c) ((t).seconds_ == (s0) + (c) && (t).nanoseconds_ == (n0) - (c) * NPS)   /* (__CPROVER_old is written out in the clauses: native replay snapshots it textually) */
 void time_point_normalize(struct time_point* self)
 __CPROVER_requires(self->seconds_ > -2 * S_MAX && self->seconds_ < 2 * S_MAX && self->nanoseconds_ > -4 * NPS && self->nanoseconds_ < 4 * NPS)
 __CPROVER_assigns(self->seconds_, self->nanoseconds_)
 __CPROVER_ensures(CANON(*self)) /* canonical form: |ns| < 10^9, sign(ns) agrees with sign(s) */
-__CPROVER_ensures(NORM_CARRY(self, -4) || NORM_CARRY(self, -3) || NORM_CARRY(self, -2) || NORM_CARRY(self, -1) || NORM_CARRY(self, 0) || NORM_CARRY(self, 1) || NORM_CARRY(self, 2) || NORM_CARRY(self, 3) || NORM_CARRY(self, 4)) /* value s*10^9 + ns preserved */
+__CPROVER_ensures(NORM_CARRY(*self, __CPROVER_old(self->seconds_), __CPROVER_old(self->nanoseconds_), -4) || NORM_CARRY(*self, __CPROVER_old(self->seconds_), __CPROVER_old(self->nanoseconds_), -3) || NORM_CARRY(*self, __CPROVER_old(self->seconds_), __CPROVER_old(self->nanoseconds_), -2) || NORM_CARRY(*self, __CPROVER_old(self->seconds_), __CPROVER_old(self->nanoseconds_), -1) || NORM_CARRY(*self, __CPROVER_old(self->seconds_), __CPROVER_old(self->nanoseconds_), 0) || NORM_CARRY(*self, __CPROVER_old(self->seconds_), __CPROVER_old(self->nanoseconds_), 1) || NORM_CARRY(*self, __CPROVER_old(self->seconds_), __CPROVER_old(self->nanoseconds_), 2) || NORM_CARRY(*self, __CPROVER_old(self->seconds_), __CPROVER_old(self->nanoseconds_), 3) || NORM_CARRY(*self, __CPROVER_old(self->seconds_), __CPROVER_old(self->nanoseconds_), 4)) /* value s*10^9 + ns preserved */
 /*@BODY normalize*/
 
 #define FSN_CARRY(rv, s, ns, c) ((rv).seconds_ == (s) + (c) && (rv).nanoseconds_ == (ns) - (c) * NPS)
@@ -154,24 +153,24 @@ __CPROVER_ensures(__CPROVER_return_value == self->nanoseconds_)
 /* tp += d / tp -= d: the value moves by exactly d.  With the cast's split d = q * 10^7 + r (q seconds and r
  * ticks, |r| < 10^7, no rounding: DC_AXIOM) that is: the result is the canonical pair of
  * (s +- q) seconds and (ns +- r * 100) nanoseconds, i.e. those two sums up to a carry of c whole seconds. */
-#define ADV(self, sign, c) ((self)->seconds_ == __CPROVER_old((self)->seconds_) sign G.dc_q + (c) && (self)->nanoseconds_ == __CPROVER_old((self)->nanoseconds_) sign G.dc_rn - (c) * NPS)
+#define ADV(t, s0, n0, sign, c) ((t).seconds_ == (s0) sign G.dc_q + (c) && (t).nanoseconds_ == (n0) sign G.dc_rn - (c) * NPS)
 #define PM_REQ(self, d) (CANON(*(self)) && (self)->seconds_ > -S_MAX && (self)->seconds_ < S_MAX && (d) >= -D_MAX && (d) <= D_MAX && G.dc_calls < 1000 && (G.dc_calls > 0 ==> DC_SPLIT_OF(G.dc_d)))
 struct time_point* time_point_plus_eq(struct time_point* self, duration_t d)
 __CPROVER_requires(PM_REQ(self, d))
 __CPROVER_assigns(self->seconds_, self->nanoseconds_, G.dc_calls, G.dc_d, G.dc_q, G.dc_m, G.dc_r, G.dc_rn)
 __CPROVER_ensures(__CPROVER_return_value == self)
-__CPROVER_ensures(DC_CALLED_ONCE && DC_SPLIT_OF(d) && DC_SAME_AS_BEFORE(d)) /* the operand itself was split, once */
+__CPROVER_ensures(DC_CALLED_ONCE && DC_SPLIT_OF(d) && DC_SAME_AS_BEFORE(d, __CPROVER_old(G.dc_calls), __CPROVER_old(G.dc_d), __CPROVER_old(G.dc_q), __CPROVER_old(G.dc_m), __CPROVER_old(G.dc_r), __CPROVER_old(G.dc_rn))) /* the operand itself was split, once */
 __CPROVER_ensures(CANON(*self)) /* the class invariant is kept */
-__CPROVER_ensures(ADV(self, +, -2) || ADV(self, +, -1) || ADV(self, +, 0) || ADV(self, +, 1) || ADV(self, +, 2)) /* advanced by exactly q s + r ticks = d */
+__CPROVER_ensures(ADV(*self, __CPROVER_old(self->seconds_), __CPROVER_old(self->nanoseconds_), +, -2) || ADV(*self, __CPROVER_old(self->seconds_), __CPROVER_old(self->nanoseconds_), +, -1) || ADV(*self, __CPROVER_old(self->seconds_), __CPROVER_old(self->nanoseconds_), +, 0) || ADV(*self, __CPROVER_old(self->seconds_), __CPROVER_old(self->nanoseconds_), +, 1) || ADV(*self, __CPROVER_old(self->seconds_), __CPROVER_old(self->nanoseconds_), +, 2)) /* advanced by exactly q s + r ticks = d */
 /*@BODY plus_eq*/
 
 struct time_point* time_point_minus_eq(struct time_point* self, duration_t d)
 __CPROVER_requires(PM_REQ(self, d))
 __CPROVER_assigns(self->seconds_, self->nanoseconds_, G.dc_calls, G.dc_d, G.dc_q, G.dc_m, G.dc_r, G.dc_rn)
 __CPROVER_ensures(__CPROVER_return_value == self)
-__CPROVER_ensures(DC_CALLED_ONCE && DC_SPLIT_OF(d) && DC_SAME_AS_BEFORE(d))
+__CPROVER_ensures(DC_CALLED_ONCE && DC_SPLIT_OF(d) && DC_SAME_AS_BEFORE(d, __CPROVER_old(G.dc_calls), __CPROVER_old(G.dc_d), __CPROVER_old(G.dc_q), __CPROVER_old(G.dc_m), __CPROVER_old(G.dc_r), __CPROVER_old(G.dc_rn)))
 __CPROVER_ensures(CANON(*self))
-__CPROVER_ensures(ADV(self, -, -2) || ADV(self, -, -1) || ADV(self, -, 0) || ADV(self, -, 1) || ADV(self, -, 2)) /* moved back by exactly q s + r ticks = d */
+__CPROVER_ensures(ADV(*self, __CPROVER_old(self->seconds_), __CPROVER_old(self->nanoseconds_), -, -2) || ADV(*self, __CPROVER_old(self->seconds_), __CPROVER_old(self->nanoseconds_), -, -1) || ADV(*self, __CPROVER_old(self->seconds_), __CPROVER_old(self->nanoseconds_), -, 0) || ADV(*self, __CPROVER_old(self->seconds_), __CPROVER_old(self->nanoseconds_), -, 1) || ADV(*self, __CPROVER_old(self->seconds_), __CPROVER_old(self->nanoseconds_), -, 2)) /* moved back by exactly q s + r ticks = d */
 /*@BODY minus_eq*/
 
 #define ADV_V(rv, a, sign, c) ((rv).seconds_ == (a).seconds_ sign G.dc_q + (c) && (rv).nanoseconds_ == (a).nanoseconds_ sign G.dc_rn - (c) * NPS)
@@ -179,7 +178,7 @@ __CPROVER_ensures(ADV(self, -, -2) || ADV(self, -, -1) || ADV(self, -, 0) || ADV
 struct time_point time_point_plus_d(struct time_point a, duration_t d)
 __CPROVER_requires(PMV_REQ(a, d))
 __CPROVER_assigns(G.dc_calls, G.dc_d, G.dc_q, G.dc_m, G.dc_r, G.dc_rn)
-__CPROVER_ensures(DC_CALLED_ONCE && DC_SPLIT_OF(d) && DC_SAME_AS_BEFORE(d))
+__CPROVER_ensures(DC_CALLED_ONCE && DC_SPLIT_OF(d) && DC_SAME_AS_BEFORE(d, __CPROVER_old(G.dc_calls), __CPROVER_old(G.dc_d), __CPROVER_old(G.dc_q), __CPROVER_old(G.dc_m), __CPROVER_old(G.dc_r), __CPROVER_old(G.dc_rn)))
 __CPROVER_ensures(CANON(__CPROVER_return_value))
 __CPROVER_ensures(ADV_V(__CPROVER_return_value, a, +, -2) || ADV_V(__CPROVER_return_value, a, +, -1) || ADV_V(__CPROVER_return_value, a, +, 0) || ADV_V(__CPROVER_return_value, a, +, 1) || ADV_V(__CPROVER_return_value, a, +, 2)) /* a + d: a advanced by exactly d */
 /*@BODY plus_d*/
@@ -187,7 +186,7 @@ __CPROVER_ensures(ADV_V(__CPROVER_return_value, a, +, -2) || ADV_V(__CPROVER_ret
 struct time_point time_point_minus_d(struct time_point a, duration_t d)
 __CPROVER_requires(PMV_REQ(a, d))
 __CPROVER_assigns(G.dc_calls, G.dc_d, G.dc_q, G.dc_m, G.dc_r, G.dc_rn)
-__CPROVER_ensures(DC_CALLED_ONCE && DC_SPLIT_OF(d) && DC_SAME_AS_BEFORE(d))
+__CPROVER_ensures(DC_CALLED_ONCE && DC_SPLIT_OF(d) && DC_SAME_AS_BEFORE(d, __CPROVER_old(G.dc_calls), __CPROVER_old(G.dc_d), __CPROVER_old(G.dc_q), __CPROVER_old(G.dc_m), __CPROVER_old(G.dc_r), __CPROVER_old(G.dc_rn)))
 __CPROVER_ensures(CANON(__CPROVER_return_value))
 __CPROVER_ensures(ADV_V(__CPROVER_return_value, a, -, -2) || ADV_V(__CPROVER_return_value, a, -, -1) || ADV_V(__CPROVER_return_value, a, -, 0) || ADV_V(__CPROVER_return_value, a, -, 1) || ADV_V(__CPROVER_return_value, a, -, 2)) /* a - d: a moved back by exactly d */
 /*@BODY minus_d*/
